@@ -578,6 +578,12 @@ func TestC17(t *testing.T) {
 	d.fixture("perp order", &tstypes.MsgCreatePerpetualOpenOrder{OwnerAddress: u1, TriggerPrice: tstypes.TriggerPrice{TradingAssetDenom: ATOM, Rate: dec("4")},
 		Collateral: sdk.NewCoin(USDC, I(5_000_000)), TradingAsset: ATOM, Position: tstypes.PerpetualPosition_LONG, Leverage: dec("2"),
 		TakeProfitPrice: dec("12"), StopLossPrice: dec("0"), PoolId: m.OraclePool}, false)
+	// a second owner's pending orders: batch cancels from that owner can then MIX own and foreign ids
+	d.fixture("spot order (second owner)", &tstypes.MsgCreateSpotOrder{OwnerAddress: u2, OrderType: tstypes.SpotOrderType_LIMITBUY,
+		OrderPrice: tstypes.OrderPrice{BaseDenom: USDC, QuoteDenom: ATOM, Rate: dec("1")}, OrderAmount: sdk.NewCoin(USDC, I(1_000_000)), OrderTargetDenom: ATOM}, false)
+	d.fixture("perp order (second owner)", &tstypes.MsgCreatePerpetualOpenOrder{OwnerAddress: u2, TriggerPrice: tstypes.TriggerPrice{TradingAssetDenom: ATOM, Rate: dec("4")},
+		Collateral: sdk.NewCoin(USDC, I(5_000_000)), TradingAsset: ATOM, Position: tstypes.PerpetualPosition_LONG, Leverage: dec("2"),
+		TakeProfitPrice: dec("12"), StopLossPrice: dec("0"), PoolId: m.OraclePool}, false)
 	d.fixture("swap out", &ammtypes.MsgSwapExactAmountOut{Sender: u2, Routes: []ammtypes.SwapAmountOutRoute{{PoolId: m.OraclePool, TokenInDenom: ATOM}}, TokenOut: sdk.NewCoin(USDC, I(5_000_000)), TokenInMaxAmount: I(5_000_000), Recipient: u2}, false)
 	d.fixture("bond", &sstypes.MsgBond{Creator: u1, Amount: I(1_000_000)}, false)
 	d.fixture("unbond", &sstypes.MsgUnbond{Creator: u1, Amount: I(500_000)}, false)
@@ -727,6 +733,8 @@ func TestC17(t *testing.T) {
 		owner string
 		mk    func(signer string) sdk.Msg
 	}
+	// batches that also name objects of the signer: those may be written before the foreign id is refused; the tx fails as a whole
+	mixedCase := map[int]bool{}
 	var ocs []ownerCase
 	for _, o := range w.App.TradeshieldKeeper.GetAllPendingSpotOrder(qctx) {
 		o := o
@@ -740,6 +748,48 @@ func TestC17(t *testing.T) {
 			ownerCase{"tradeshield.MsgCancelSpotOrders", o.OwnerAddress, func(s string) sdk.Msg {
 				return &tstypes.MsgCancelSpotOrders{Creator: s, SpotOrderIds: []uint64{o.OrderId}}
 			}})
+	}
+	// batch cancels that MIX the signer's own ids with a foreign one, the foreign id last and first: an owner check made
+	// on part of the list only (first element, or hoisted out of the loop) is invisible to single-id batches
+	spotOf := map[string][]uint64{}
+	for _, o := range w.App.TradeshieldKeeper.GetAllPendingSpotOrder(qctx) {
+		spotOf[o.OwnerAddress] = append(spotOf[o.OwnerAddress], o.OrderId)
+	}
+	perpOf := map[string][]uint64{}
+	for _, o := range w.App.TradeshieldKeeper.GetAllPendingPerpetualOrder(qctx) {
+		perpOf[o.OwnerAddress] = append(perpOf[o.OwnerAddress], o.OrderId)
+	}
+	mix := func(own []uint64, foreign uint64, foreignFirst bool) []uint64 {
+		if foreignFirst {
+			return append([]uint64{foreign}, own...)
+		}
+		return append(append([]uint64{}, own...), foreign)
+	}
+	for _, o := range w.App.TradeshieldKeeper.GetAllPendingSpotOrder(qctx) {
+		o := o
+		for _, ff := range []bool{false, true} {
+			ff := ff
+			mixedCase[len(ocs)] = true
+			ocs = append(ocs, ownerCase{"tradeshield.MsgCancelSpotOrders", o.OwnerAddress, func(s string) sdk.Msg {
+				if s == o.OwnerAddress {
+					return &tstypes.MsgCancelSpotOrders{Creator: s, SpotOrderIds: []uint64{o.OrderId}}
+				}
+				return &tstypes.MsgCancelSpotOrders{Creator: s, SpotOrderIds: mix(spotOf[s], o.OrderId, ff)}
+			}})
+		}
+	}
+	for _, o := range w.App.TradeshieldKeeper.GetAllPendingPerpetualOrder(qctx) {
+		o := o
+		for _, ff := range []bool{false, true} {
+			ff := ff
+			mixedCase[len(ocs)] = true
+			ocs = append(ocs, ownerCase{"tradeshield.MsgCancelPerpetualOrders", o.OwnerAddress, func(s string) sdk.Msg {
+				if s == o.OwnerAddress {
+					return &tstypes.MsgCancelPerpetualOrders{OwnerAddress: s, OrderIds: []uint64{o.OrderId}}
+				}
+				return &tstypes.MsgCancelPerpetualOrders{OwnerAddress: s, OrderIds: mix(perpOf[s], o.OrderId, ff)}
+			}})
+		}
 	}
 	for _, o := range w.App.TradeshieldKeeper.GetAllPendingPerpetualOrder(qctx) {
 		o := o
@@ -781,7 +831,7 @@ func TestC17(t *testing.T) {
 	ocs = append(ocs, ownerCase{"tokenomics.MsgClaimAirdrop", w.Gov, func(s string) sdk.Msg { return &tokentypes.MsgClaimAirdrop{Sender: s} }})
 	ownerAccepted := 0
 	var ownerKinds []string
-	for _, oc := range ocs {
+	for oi, oc := range ocs {
 		url := "/elys." + oc.name
 		or := d.deliver(oc.mk(oc.owner), false)
 		if oc.name != "tokenomics.MsgClaimAirdrop" { // there the owner (gov) has no airdrop under its own key
@@ -794,7 +844,7 @@ func TestC17(t *testing.T) {
 			t.Logf("owner not accepted: %s: %v %v", oc.name, or.Err, or.Panic)
 		}
 		ownerKinds = append(ownerKinds, oc.name+"="+or.Kind)
-		for _, s := range []struct{ class, addr string }{{"other-user", u2}, {"module-account", modAcc}, {"gov", w.Gov}} {
+		for _, s := range []struct{ class, addr string }{{"other-user", u2}, {"other-user", u1}, {"module-account", modAcc}, {"gov", w.Gov}} {
 			if s.addr == oc.owner {
 				continue
 			}
@@ -804,7 +854,7 @@ func TestC17(t *testing.T) {
 			col.ImplCheck(1)
 			col.Op("non-owner:"+oc.name, r.Kind, nil)
 			col.Distinct(fmt.Sprintf("%s|%s|%s|owner=%s", oc.name, s.class, r.Kind, or.Kind), or.Kind == "ok")
-			if r.Kind == "ok" || r.Changed {
+			if r.Kind == "ok" || (r.Changed && !mixedCase[oi]) {
 				js, _ := json.Marshal(msg)
 				sig := "C17_owner-scoped-accepted-from-non-owner:"
 				if r.Kind != "ok" {
